@@ -125,7 +125,7 @@ def w_ook(ctx, rng, i):
     ctx.case(("ook", round(math.log10(s0)), round(math.log10(s1 / s0), 1), round(mu / s)), sample=dict(mu=mu, s0=s0, s1=s1, out=out, true_min=lo) if i < 3 else None)
 
 
-PPM_WITNESSES = [(41.75669167739981, 0.5832767328265208, 9.877095003064996, 64)]      # thorough tier seed 6, ppm[2841]: quad over (-inf, inf) missed the step
+PPM_WITNESSES = [(41.75669167739981, 0.5832767328265208, 9.877095003064996, 64), (268.91788132598094, 6.347531703339712, 64.3547940268455, 128)]      # thorough tier seed 6, ppm[2841]: quad over (-inf, inf) missed the step
 
 
 def w_ppm(ctx, rng, i):
@@ -135,7 +135,7 @@ def w_ppm(ctx, rng, i):
     mu = float(rng.uniform(0.01, 20)) * s
     if i < len(PPM_WITNESSES):       # witnesses of repaired defects stay in the workload (a fixed entry suppresses nothing: the violation is reported if it returns)
         mu, s0, s1, M = PPM_WITNESSES[i]
-    elif i % 16 == 9:                # s1 >> s0: the soft-decision integrand has a step of width s0/s1 far out in the Gaussian tail (fix 7424c6d)
+    elif i % 16 == 9:                # s1 >> s0: the soft-decision integrand has a step of width s0/s1 far out in the Gaussian tail (fix 2f4ed56)
         s1 = s0 * float(rng.uniform(8, 40))
         M = int(2 ** rng.integers(4, 9))
         mu = float(rng.uniform(3.0, 5.5)) * s1
